@@ -125,7 +125,7 @@ struct Ring {
 struct RingDoc {
     first: RcRecursive<Ring>,
 }
-#[derive(Serialize, Deserialize, Debug, PartialEq)]
+#[derive(Serialize, Deserialize, Debug, PartialEq, Clone)]
 struct PlainLeaf {
     name: String,
 }
@@ -142,6 +142,174 @@ struct PlainLeaves {
     b: PlainLeaf,
     c: PlainLeaf,
     d: PlainLeaf,
+}
+
+
+// ------------------------------------------------------------------ shared nodes of every kind, in every position
+
+#[derive(Serialize, Deserialize, Debug, PartialEq, Clone)]
+enum Pay {
+    U,
+    N(i32),
+    T(i32, String),
+    St { x: i32 },
+}
+
+#[derive(Serialize, Deserialize, Debug)]
+struct Fields<P: 'static> {
+    a: RcAnchor<P>,
+    mid: i32,
+    b: RcAnchor<P>,
+    c: RcAnchor<P>,
+    tail: String,
+}
+#[derive(Serialize, Deserialize, Debug)]
+struct InSeq<P: 'static> {
+    items: Vec<RcAnchor<P>>,
+    by_key: BTreeMap<String, RcAnchor<P>>,
+}
+#[derive(Serialize, Deserialize, Debug)]
+#[serde(bound(deserialize = "P: serde::de::DeserializeOwned + Send + Sync + 'static"))]
+struct ArcFields<P: 'static> {
+    a: ArcAnchor<P>,
+    b: ArcAnchor<P>,
+    w: ArcWeakAnchor<P>,
+    gone: ArcWeakAnchor<P>,
+    n: i32,
+}
+#[derive(Serialize, Deserialize, Debug)]
+struct WeakFirst {
+    w: RcWeakAnchor<Vec<i32>>,
+    s: RcAnchor<Vec<i32>>,
+}
+#[derive(Serialize, Deserialize, Debug)]
+struct Link {
+    name: String,
+    up: Option<RcRecursion<Link>>,
+    next: Option<RcRecursive<Link>>,
+}
+
+/// A shared node of kind `P` (value `v`) as struct fields, sequence elements, map values, and through Arc with a live
+/// and a dangling weak edge: the text reads back, allocations are shared exactly as before, values are equal.
+fn shared_kind<P>(ctx: &mut Ctx, kind: &str, v: P, known: Option<&str>)
+where
+    P: Serialize + serde::de::DeserializeOwned + std::fmt::Debug + PartialEq + Clone + Send + Sync + 'static,
+{
+    let cls = |c: &str| known.map(|k| k.to_string()).unwrap_or_else(|| c.to_string());
+    ctx.direct_evaluations += 3;
+    // struct fields
+    {
+        let x = Rc::new(v.clone());
+        let doc = Fields { a: RcAnchor(x.clone()), mid: 5, b: RcAnchor(x), c: RcAnchor(Rc::new(v.clone())), tail: "t".into() };
+        let text = serde_saphyr::to_string(&doc).unwrap_or_else(|e| format!("<serializer error: {e}>"));
+        let replay = json!({"kind": "shared_kind", "payload": kind, "position": "fields", "text": text});
+        match serde_saphyr::from_str::<Fields<P>>(&text) {
+            Ok(r) => {
+                if !(Rc::ptr_eq(&r.a.0, &r.b.0) && !Rc::ptr_eq(&r.a.0, &r.c.0)) {
+                    ctx.fail(&cls("sharing-differs"), format!("shared {kind} in struct fields: a/b shared {}, a/c shared {} after the round trip; text {text:?}", Rc::ptr_eq(&r.a.0, &r.b.0), Rc::ptr_eq(&r.a.0, &r.c.0)), replay);
+                } else if !(*r.a.0 == v && *r.c.0 == v && r.mid == 5 && r.tail == "t") {
+                    ctx.fail(&cls("values-differ"), format!("shared {kind} in struct fields reads back as {r:?}; text {text:?}"), replay);
+                }
+            }
+            Err(e) => ctx.fail(&cls("round-trip-failed"), format!("shared {kind} in struct fields {text:?}: {}", e.to_string().lines().next().unwrap_or("")), replay),
+        }
+    }
+    // sequence elements and map values
+    {
+        let x = Rc::new(v.clone());
+        let y = Rc::new(v.clone());
+        let doc = InSeq { items: vec![RcAnchor(x.clone()), RcAnchor(y.clone()), RcAnchor(x.clone())], by_key: BTreeMap::from([("k1".to_string(), RcAnchor(y)), ("k2".to_string(), RcAnchor(x))]) };
+        let text = serde_saphyr::to_string(&doc).unwrap_or_else(|e| format!("<serializer error: {e}>"));
+        let replay = json!({"kind": "shared_kind", "payload": kind, "position": "seq_map", "text": text});
+        match serde_saphyr::from_str::<InSeq<P>>(&text) {
+            Ok(r) => {
+                let ptrs: Vec<usize> = r.items.iter().chain(r.by_key.values()).map(|a| Rc::as_ptr(&a.0) as *const u8 as usize).collect();
+                if r.items.len() != 3 || r.by_key.len() != 2 || classes(&ptrs) != vec![0, 1, 0, 1, 0] {
+                    ctx.fail(&cls("sharing-differs"), format!("shared {kind} in a sequence and a map: classes {:?}, expected [0, 1, 0, 1, 0]; text {text:?}", classes(&ptrs)), replay);
+                } else if r.items.iter().chain(r.by_key.values()).any(|a| *a.0 != v) {
+                    ctx.fail(&cls("values-differ"), format!("shared {kind} in a sequence and a map reads back as {r:?}; text {text:?}"), replay);
+                }
+            }
+            Err(e) => ctx.fail(&cls("round-trip-failed"), format!("shared {kind} in a sequence and a map {text:?}: {}", e.to_string().lines().next().unwrap_or("")), replay),
+        }
+    }
+    // Arc, a live weak edge and a dangling one
+    {
+        let x = Arc::new(v.clone());
+        let dead = Arc::new(v.clone());
+        let gone = ArcWeakAnchor(Arc::downgrade(&dead));
+        drop(dead);
+        let doc = ArcFields { a: ArcAnchor(x.clone()), b: ArcAnchor(x.clone()), w: ArcWeakAnchor(Arc::downgrade(&x)), gone, n: 1 };
+        let text = serde_saphyr::to_string(&doc).unwrap_or_else(|e| format!("<serializer error: {e}>"));
+        let replay = json!({"kind": "shared_kind", "payload": kind, "position": "arc_weak", "text": text});
+        match serde_saphyr::from_str::<ArcFields<P>>(&text) {
+            Ok(r) => {
+                let live = r.w.0.upgrade().map(|t| Arc::ptr_eq(&t, &r.a.0)).unwrap_or(false);
+                if !(Arc::ptr_eq(&r.a.0, &r.b.0) && live && r.gone.0.upgrade().is_none() && *r.a.0 == v && r.n == 1) {
+                    ctx.fail(&cls("sharing-differs"), format!("shared {kind} through Arc: a/b shared {}, weak edge to a {live}, dangling edge dangling {}; text {text:?}", Arc::ptr_eq(&r.a.0, &r.b.0), r.gone.0.upgrade().is_none()), replay);
+                }
+            }
+            Err(e) => ctx.fail(&cls("round-trip-failed"), format!("shared {kind} through Arc with weak edges {text:?}: {}", e.to_string().lines().next().unwrap_or("")), replay),
+        }
+    }
+}
+
+fn shared_kinds(ctx: &mut Ctx) {
+    use serde_saphyr::{FlowMap, FlowSeq, LitString};
+    shared_kind::<Option<i32>>(ctx, "None", None, None);
+    shared_kind::<Option<i32>>(ctx, "Some(7)", Some(7), None);
+    shared_kind::<()>(ctx, "unit", (), None);
+    shared_kind::<bool>(ctx, "bool", true, None);
+    shared_kind::<f64>(ctx, "float", 1.5, None);
+    shared_kind::<String>(ctx, "word", "word".into(), None);
+    shared_kind::<String>(ctx, "empty string", String::new(), None);
+    shared_kind::<String>(ctx, "null-looking string", "null".into(), None);
+    // F67 (open): a shared string written as a block scalar loses its anchor (a test of the suite pins `key: >`)
+    shared_kind::<String>(ctx, "multi-line string", "line1\nline2\n".into(), Some("F67:shared-block-scalar"));
+    shared_kind::<LitString>(ctx, "literal wrapper", LitString("a\nb".into()), Some("F67:shared-block-scalar"));
+    shared_kind::<String>(ctx, "one-line string with a quote", "it's".into(), None);
+    shared_kind::<Vec<i32>>(ctx, "sequence", vec![1, 2], None);
+    shared_kind::<Vec<i32>>(ctx, "empty sequence", vec![], None);
+    shared_kind::<BTreeMap<String, i32>>(ctx, "mapping", BTreeMap::from([("k".to_string(), 1)]), None);
+    shared_kind::<BTreeMap<String, i32>>(ctx, "empty mapping", BTreeMap::new(), None);
+    shared_kind::<FlowSeq<Vec<i32>>>(ctx, "flow sequence", FlowSeq(vec![1, 2]), None);
+    shared_kind::<FlowMap<BTreeMap<String, i32>>>(ctx, "flow mapping", FlowMap(BTreeMap::from([("k".to_string(), 1)])), None);
+    shared_kind::<(i32, String)>(ctx, "tuple", (1, "x".into()), None);
+    shared_kind::<PlainLeaf>(ctx, "struct", PlainLeaf { name: "n".into() }, None);
+    shared_kind::<Pay>(ctx, "unit variant", Pay::U, None);
+    // F65 (open): the anchor of a shared enum value with a payload lands on the payload's first scalar
+    shared_kind::<Pay>(ctx, "newtype variant", Pay::N(1), Some("F65:shared-enum-payload"));
+    shared_kind::<Pay>(ctx, "tuple variant", Pay::T(1, "x".into()), Some("F65:shared-enum-payload"));
+    shared_kind::<Pay>(ctx, "struct variant", Pay::St { x: 1 }, Some("F65:shared-enum-payload"));
+
+    // F64 (open): a weak reference serialized before its strong target carries the definition
+    ctx.direct_evaluations += 1;
+    let s = Rc::new(vec![1]);
+    let doc = WeakFirst { w: RcWeakAnchor(Rc::downgrade(&s)), s: RcAnchor(s.clone()) };
+    let text = serde_saphyr::to_string(&doc).unwrap_or_default();
+    match serde_saphyr::from_str::<WeakFirst>(&text) {
+        Ok(r) if r.w.0.upgrade().map(|t| Rc::ptr_eq(&t, &r.s.0)).unwrap_or(false) => {}
+        other => ctx.fail("F64:weak-before-strong", format!("weak edge written before its strong target: {text:?} reads back as {:?}", other.map(|_| "a different graph").map_err(|e| e.to_string().lines().next().unwrap_or("").to_string())),
+            json!({"kind": "weak_first", "text": text})),
+    }
+    // F66 (open): an optional back link to a node that is still being read comes back as None
+    ctx.direct_evaluations += 1;
+    // (the text is what the serializer writes for root { next: kid { up: -> root } })
+    let text = "&a1\nname: root\nup: null\nnext: &a2\n  name: kid\n  up: *a1\n  next: null\n";
+    match serde_saphyr::from_str::<RcRecursive<Link>>(text) {
+        Ok(r) => {
+            let kid_up = (|| {
+                let g = r.0.borrow();
+                let kid = g.as_ref()?.next.as_ref()?;
+                let kg = kid.0.borrow();
+                Some(kg.as_ref()?.up.is_some())
+            })();
+            if kid_up != Some(true) {
+                ctx.fail("F66:optional-back-link", format!("Option<RcRecursion<_>> pointing at the node being read comes back as None: {text:?}"), json!({"kind": "back_link", "text": text}));
+            }
+        }
+        Err(e) => ctx.fail("F66:optional-back-link", format!("{text:?}: {}", e.to_string().lines().next().unwrap_or("")), json!({"kind": "back_link", "text": text})),
+    }
 }
 
 pub fn run(ctx: &mut Ctx) {
@@ -447,4 +615,5 @@ pub fn run(ctx: &mut Ctx) {
             ctx.fail("F13:inner-wrapper-takes-outer-anchor", format!("`&a [x, y]` as RcAnchor<Vec<RcAnchor<String>>> gives {r:?}"), json!({"kind": "f13"}));
         }
     }
+    shared_kinds(ctx);
 }
